@@ -14,6 +14,13 @@ func TestInt(t *testing.T) {
 				V(L(S(P(0, 1, 1), P(1, 1, 2))), token.INT, "23"),
 			},
 		},
+		"counts a newline consumed after an incomplete size suffix": {
+			input: "12i\n1",
+			want: []*token.Token{
+				V(L(S(P(0, 1, 1), P(3, 2, 0))), token.ERROR, "invalid sized integer literal"),
+				V(L(S(P(4, 2, 1), P(4, 2, 1))), token.INT, "1"),
+			},
+		},
 		"decimal with leading zeros": {
 			input: "00015",
 			want: []*token.Token{
